@@ -669,8 +669,10 @@ def chk_groestl(sym):
     net = NONSTD[sym]
     if net.parse.address("FiY8i8U4j3q4uT1kq9y1vb1y9v2Wb6vVbX") is not None:
         return {"kind": "groestl-parser-enabled"}
+    import io, contextlib
     try:
-        net.address.for_p2pkh(b"\x00" * 20)
+        with contextlib.redirect_stdout(io.StringIO()), contextlib.redirect_stderr(io.StringIO()):
+            net.address.for_p2pkh(b"\x00" * 20)
     except ImportError:
         return None
     return {"kind": "groestl-encoder-available"}
@@ -712,6 +714,12 @@ def prop_cases(rng, tier):
         for s in own_strings(rng, NETS[sym], "quick"):
             yield PropCase("codec_premises", {"string": s}, (lambda s=s: chk_codec_b58_dec(s) or chk_codec_seg_parse(s)))
     yield PropCase("classify", {"script": "regression:multisig17"}, _regress_multisig17)
+    # the six prefix-of-prefix offenders of DESIGN.md section 7 #17 (fixed in /repo): named regressions
+    for a, k, b in (("ZEC", 0, "CHC"), ("ZEC", 1, "CHC"), ("tZEC", 1, "CHC"), ("PIVX", 1, "BTC"), ("PIVX", 1, "BCH"), ("DCRT", 1, "FTC")):
+        for _ in range(5):
+            p = rb(rng, 20)
+            yield PropCase("cross", {"a": a, "kind": k, "payload": p.hex(), "b": b, "former_offender": True},
+                           (lambda a=a, k=k, p=p, b=b: chk_cross(a, k, p, b)))
     for sym in sorted(NONSTD):
         yield PropCase("groestl_table_only", {"net": sym}, (lambda sym=sym: chk_groestl(sym)))
 
